@@ -180,12 +180,10 @@ int check_for_sequences(struct msa* msa)
         if(!msa){
                 ERROR_MSG("No sequences were found in the input files or standard input.");
         }
-        if(msa->numseq < 2){
-                if(msa->numseq == 0){
-                        ERROR_MSG("No sequences were found in the input files or standard input.");
-                }else if (msa->numseq == 1){
-                        ERROR_MSG("Only 1 sequence was found in the input files or standard input");
-                }
+        /* A single sequence is not an error here: further input files may follow and are merged
+           into the same msa; kalign_run() rejects a set of fewer than two sequences. */
+        if(msa->numseq == 0){
+                ERROR_MSG("No sequences were found in the input files or standard input.");
         }
         return OK;
 ERROR:
